@@ -271,6 +271,14 @@ func checkConsts(p *Program, r *Result, sites []ConstSite) {
 }
 
 func runC05(p *Program, r *Result) {
+	// the armor typestate and reader rules and the STREAM writer discipline are part of what makes
+	// the written bytes the specified ones (a footer without header, a second final chunk)
+	defer func() {
+		r.Rule("R05.armor", "the armor rules of C08 (header before footer, canonical reader)", 0)
+		runC08(p, r)
+		r.Rule("R05.stream-writer", "STREAM writer: one nonce per sealed chunk, the final flag on the last chunk only, nothing sealed after it (= R06.6)", 9)
+		checkStreamWriter(p, r)
+	}()
 	r.Rule("R05.recipes", "call-site recipes, stanza layouts and guards equal the specification table", 60)
 	checkSites(p, r, recipeSites, "C05")
 	r.Rule("R05.constants", "labels, sizes and format constants equal the specification table", 24)
